@@ -76,8 +76,8 @@ Fixpoint run_plain_tr {A : Type} (be dbg : bool) (base : N) (p : prog A) (r : rd
   end.
 
 (* the field map of parser p on section P: every span it reads, tagged plain / relocatable(width) *)
-Definition field_trace {A} (be dbg : bool) (p : prog A) (P : list byte) : list ev :=
-  fst (run_plain_tr be dbg 0 p (mkRd 0 P)).
+Definition field_trace {A} (be dbg : bool) (base : N) (p : prog A) (P : list byte) : list ev :=
+  fst (run_plain_tr be dbg base p (mkRd base P)).
 
 (* (position, width) of the relocatable fields *)
 Definition field_sites (t : list ev) : list (N * N) :=
@@ -97,8 +97,8 @@ Definition fitsb (be : bool) (R : list rrel) (bs : list byte) : bool :=
                     <? 2 ^ (8 * rr_w r)) R.
 
 (* the whole static side condition, for the streams *)
-Definition static_okb {A} (be dbg : bool) (R : list rrel) (p : prog A) (bs : list byte) : bool :=
-  sites_disjointb R && fitsb be R bs && forallb (shape_okb R) (field_trace be dbg p (apply_rrels be R bs)).
+Definition static_okb {A} (be dbg : bool) (base : N) (R : list rrel) (p : prog A) (bs : list byte) : bool :=
+  sites_disjointb R && fitsb be R bs && forallb (shape_okb R) (field_trace be dbg base p (apply_rrels be R bs)).
 
 (* "R's sites are among the relocatable fields" *)
 Definition site_inb (s : list (N * N)) (r : rrel) : bool :=
